@@ -18,53 +18,60 @@ EXTENDS Version, Json, IOUtils, SequencesExt
 
 Traces == ndJsonDeserialize(IOEnv.TRACE_FILE)
 
-VARIABLES tid, l, bad, drift, stat
-tvars == <<mvars, tid, l, bad, drift, stat>>
+VARIABLES tid, l, bad, drift, stat,
+          ref, act       \* part b: reference and actual view of the step (0 for part a); bound once per step
+tvars == <<mvars, tid, l, bad, drift, stat, ref, act>>
 
 Rec(t, i) == Traces[t].steps[i]
 
-NormT(t, r) ==
-    [algs |-> Traces[t].algs,
-     targets |-> r.args.targets,
-     extra |-> r.obs.extra,
-     els |-> [k \in DOMAIN r.args.els |->
-                LET a == r.args.els[k]
-                    o == r.obs.els[k]
-                IN [owner |-> a.path[1] \o "." \o a.path[2],     \* structural: the descriptor's task and algorithm
-                    level |-> Len(a.path) - 1,
-                    cur |-> VerStr(a.decl),
-                    present |-> a.present,
-                    pers |-> [j \in DOMAIN a.vers |-> VerStr(a.vers[j])],
-                    aincur |-> o.incur, acur |-> o.cur,
-                    apresent |-> o.present, apers |-> o.pers]]]
+Els(t, r, F(_, _)) == [k \in DOMAIN r.args.els |-> F(r.args.els[k], r.obs.els[k])]
+Owner(a) == a.path[1] \o "." \o a.path[2]            \* structural: the descriptor's task and algorithm
 
-Eval(t, i) ==
+(* reference view: declared versions, persisted lists as chosen / as recorded *)
+RefT(t, r) ==
+    [algs |-> Traces[t].algs, targets |-> r.args.targets,
+     els |-> Els(t, r, LAMBDA a, o : [owner |-> Owner(a), level |-> Len(a.path) - 1,
+                                      incur |-> TRUE, cur |-> VerStr(a.decl),
+                                      present |-> a.present,
+                                      pers |-> [j \in DOMAIN a.vers |-> VerStr(a.vers[j])]])]
+(* actual view: what version.current() reported, what the tables given to build() held *)
+ActT(t, r) ==
+    [algs |-> Traces[t].algs, targets |-> r.args.targets,
+     els |-> Els(t, r, LAMBDA a, o : [owner |-> Owner(a), level |-> Len(a.path) - 1,
+                                      incur |-> o.incur, cur |-> o.cur,
+                                      present |-> o.present, pers |-> o.pers])]
+
+IsA(t) == Traces[t].part = "a"
+RefOf(t, i) == IF IsA(t) THEN 0 ELSE RefT(t, Rec(t, i))
+ActOf(t, i) == IF IsA(t) THEN 0 ELSE ActT(t, Rec(t, i))
+
+Eval(t, i, rf, ac) ==
     LET r == Rec(t, i) IN
-    IF Traces[t].part = "a"
+    IF IsA(t)
     THEN PairClauses(r.args.a, r.args.b, r.obs.r, r.obs.q)
-    ELSE BuildClauses(NormT(t, r), r.st)
+    ELSE BuildClauses(rf, r.st) \cup FaithClauses(rf, ac, r.obs.extra)
 
-Drifts(t, i) ==
+Drifts(t, i, ac) ==
     LET r == Rec(t, i) IN
-    IF Traces[t].part = "a"
+    IF IsA(t)
     THEN r.obs.r # ImplOps(r.args.a, r.args.b) \/ r.obs.q # ImplOps(r.args.b, r.args.a)
-    ELSE ~ImplAgrees(NormT(t, r), r.st)
+    ELSE ~ImplAgrees(ac, r.st)
 
 (* vacuity counters, accumulated by TLC along each trace and printed at its end.
-   part a: <<steps, lt true, eq true, gt true, 0>>
+   part a: <<steps, a<b, a=b, a>b, 0>>
    part b: <<steps, algorithms that must be queued, algorithms that must stay out,
              analyses that must be queued, steps with no known target>> *)
 B2N(x) == IF x THEN 1 ELSE 0
-StatOf(t, i) ==
+StatOf(t, i, rf) ==
     LET r == Rec(t, i) IN
-    IF Traces[t].part = "a"
+    IF IsA(t)
     THEN <<1, B2N(Lex(r.args.a, r.args.b)), B2N(r.args.a = r.args.b), B2N(Lex(r.args.b, r.args.a)), 0>>
-    ELSE LET c == NormT(t, r) IN
-         <<1,
-           Cardinality({ a \in AlgNames(c) : Want(c, a) # {} }),
-           Cardinality({ a \in AlgNames(c) : ~Changed(c, a) }),
-           Cardinality({ a \in AlgNames(c) : Changed(c, a) /\ KindOf(c, a) = "analysis" }),
-           B2N(r.args.targets = <<>>)>>
+    ELSE LET ch == ChangedSet(rf)
+         IN <<1,
+              Cardinality({ a \in ch : WantIf(rf, ch, a) # {} }),
+              Cardinality(AlgNames(rf) \ ch),
+              Cardinality({ a \in ch : KindOf(rf, a) = "analysis" }),
+              B2N(r.args.targets = <<>>)>>
 Plus(x, y) == [k \in DOMAIN x |-> x[k] + y[k]]
 
 Report(t, i, b, d, s) ==
@@ -73,21 +80,25 @@ Report(t, i, b, d, s) ==
     /\ (i = Len(Traces[t].steps) => PrintT(<<"STAT", Traces[t].tid, Traces[t].part, s>>))
 
 TraceInit ==
-    /\ pr = 0 /\ cs = 0
+    /\ ph = "trace" /\ pr = 0 /\ cs = 0
     /\ tid \in 1..Len(Traces)
     /\ l = 1
-    /\ bad = Eval(tid, 1)
-    /\ drift = Drifts(tid, 1)
-    /\ stat = StatOf(tid, 1)
+    /\ ref = RefOf(tid, 1)
+    /\ act = ActOf(tid, 1)
+    /\ bad = Eval(tid, 1, ref, act)
+    /\ drift = Drifts(tid, 1, act)
+    /\ stat = StatOf(tid, 1, ref)
     /\ Report(tid, 1, bad, drift, stat)
 
 TraceNext ==
     /\ l < Len(Traces[tid].steps)
     /\ l' = l + 1
     /\ UNCHANGED <<mvars, tid>>
-    /\ bad' = Eval(tid, l + 1)
-    /\ drift' = Drifts(tid, l + 1)
-    /\ stat' = Plus(stat, StatOf(tid, l + 1))
+    /\ ref' = RefOf(tid, l + 1)
+    /\ act' = ActOf(tid, l + 1)
+    /\ bad' = Eval(tid, l + 1, ref', act')
+    /\ drift' = Drifts(tid, l + 1, act')
+    /\ stat' = Plus(stat, StatOf(tid, l + 1, ref'))
     /\ Report(tid, l + 1, bad', drift', stat')
 
 TraceSpec == TraceInit /\ [][TraceNext]_tvars
